@@ -24,9 +24,18 @@ def run_history(args):
     steps = []
     findings = []
     hist = []
+    last = None
     for step in range(rng.randint(1, max_len)):
-        call = cc.gen_call(rng, c)
+        try:
+            call = cc.gen_call(rng, c)
+        except Exception as e:
+            # reading the circuit (iteration / surround) raised on a reachable state: the previous call broke it
+            if last is not None:
+                findings.append(dict(kind='iteration_raised', step=step - 1, call=last[1], pre=last[0],
+                                     detail=type(e).__name__ + ':' + str(e)[:120]))
+            break
         pre = cc.snap(c)
+        last = (pre, call)
         out = cc.apply_impl(c, call)
         post = cc.snap(c)
         hist.append(call)
